@@ -1,4 +1,4 @@
-HOOK_COMMITS = ["fbdaa93", "4826fd9"]
+HOOK_COMMITS = ["fbdaa93", "4826fd9", "abac571", "aacbbea"]
 NOTES = ("Technique family: runtime monitoring and sanitizers. Every check runs the real rzmq code (rebuilt from /repo's working tree "
          "with --cfg rzmq_verif) under hostile workloads with an oracle observing executions; verdicts are three-valued "
          "(exit 0 held / exit 1 + VIOLATION line / exit 2 + INCONCLUSIVE lines when nothing conclusive was observed). Known findings "
